@@ -370,6 +370,8 @@ class SymExec:
                 self.mem[k] = args[1]
                 self.stores.append((args[0], args[1], n))
                 return old
+            if not np.startswith(("std::", "<")):
+                return ("ret", np, args, "%s:bb%d" % (n.ctx.fn.npath, n.bb))
             return ("call", np, args)
         if np in PURE_GETTERS:
             return ("call", np, args)
